@@ -552,7 +552,7 @@ def run(ctx, only=None):
     if res.distinct != data['ncases']:
         raise MachineryError(f'TLC visited {res.distinct} states, the specification counts {data["ncases"]} cases')
     world()
-    n_self = selftest(vectors)
+    n_self = rep.selftest(selftest, vectors)
     rep.extra['selftest_checks'] = n_self
     counts = {'sink_status': {}, 'drift': {}}
     # ---- the deviations, each exhibited by TLC and replayed on the code
